@@ -76,6 +76,7 @@ func init() {
 			out = append(out, Instance{Scenario: "c15_start", Params: mustJSON(StartParams{Reset: "earliest", Mode: "infinite", Mitigation: true}), Bound: 1, Shards: 4, Note: "rollback mitigation on (the default): the fail-over-log queries it issues when the session starts are start-up requests too"})
 			out = append(out, Instance{Scenario: "c12_duringopen", Params: mustJSON(struct{}{}), Bound: b, Shards: 4, Note: "a started session never silently covers only part of the assignment: a stream ending while Open() still waits for another vBucket is re-opened or counted"})
 			out = append(out, Instance{Scenario: "c15_reopen_fault", Params: mustJSON(struct{}{}), Bound: 0, Note: "load failures at the start-up that ends a rebalance"})
+			out = append(out, Instance{Scenario: "c08_endincatchup", Params: mustJSON(struct{}{}), Bound: 0, Note: "a transient end while the stream catches up after a rollback is re-opened (or fatal after the bounded retries) - never a session that silently goes on without the vBucket"})
 			out = append(out, Instance{Scenario: "c15_slowfail", Params: mustJSON(struct{}{}), Bound: b, Shards: 4, Note: "the failing stream request is the last one to complete: every schedule within the bound"})
 			out = append(out, Instance{Scenario: "c02_sessions", Params: mustJSON(SessionsParams{ReadOnly: true, Flushed: true}), Bound: 0, Shards: 2, Note: "read-only metadata, second / third session of one process: a checkpoint that lies beyond the high seqno when the vBucket is (re-)assigned terminates the client - loads are fresh reads also for gained vBuckets"})
 			out = append(out, Instance{Scenario: "c12_reopenfail", Params: mustJSON(ReopenFailParams{Failures: 5}), Bound: 0, Note: "a vBucket that cannot be re-opened after the bounded retries terminates the client"})
